@@ -46,6 +46,27 @@ def run(chk, replay=None):
                     chk.violate('stream outputs of two lines that differ only in sensitive literal contents differ', {'cfg': cfg.describe(), 'L': a.decode('utf-8', 'replace')[:800], 'L2_len': len(b), 'L2': b.decode('utf-8', 'replace')[:800],
                                 'out_L': oa[:200].decode('utf-8', 'replace'), 'out_L2': ob[:200].decode('utf-8', 'replace'), 'result_L': ca, 'result_L2': cb}, tags=['interference', 'stream'])
             chk.streams.append({'stream': 'paired lines through the stream processor', 'pairs': len(sel), 'longest': max([len(p[1]) for p in sel] or [0])})
+    # under $date, $oid and $binary.base64 EVERY string is one lexical class: texts of every shape there (a date, 24 hex digits, base64, a UUID, an e-mail
+    # address, a plain word, the empty string, a number, the placeholders themselves) must give one and the same output line
+    shapes = ['2024-05-01T10:15:00.000Z', '0123456789abcdef01234567', 'QUJDREVGRw==', 'a657a630-1111-4000-8000-d01de73c37e7', 'zoe@corp.example', 'Xq77plainqX', '', '42', 'REDACTED',
+              '1970-01-01T00:00:00.000Z', 'redacted@redacted.com', 'a@b.co', ' pad@x.io ', '$notafield'[1:]]
+    import json as _json
+    ctxs = {'date': '{"$date":%s}', 'oid': '{"$oid":%s}', 'base64': '{"$binary":{"base64":%s,"subType":"00"}}'}
+    places = ['{"find":"c","filter":{"f":%s},"$db":"d"}', '{"update":"c","updates":[{"q":{"k":1},"u":{"$set":{"f":%s}}}],"$db":"d"}', '{"aggregate":"c","pipeline":[{"$match":{"f":{"$in":[%s]}}}],"$db":"d"}']
+    for cname, ct in ctxs.items():
+        for pi, pl in enumerate(places):
+            ls = [('{"t":{"$date":"2020-01-01T00:00:00.000+00:00"},"s":"I","c":"COMMAND","id":51803,"ctx":"conn1","msg":"Slow query","attr":{"ns":"d.c","command":%s}}' % (pl % (ct % _json.dumps(x)))).encode() for x in shapes]
+            for cfgk in (Cfg(), Cfg(repl='q', nums=True, bools=True)):
+                res = run_lines(cfgk, ls)
+                outs = [io for io, _ in res]; mouts = [mo for _, mo in res]
+                chk.count(len(ls)); chk.nontriv(('wrapper-class', cname, pi, cfgk.describe()['repl']))
+                if (len(set(outs)) == 1) != (len(set(mouts)) == 1):
+                    chk.disagree('equality of the outputs for texts of every shape under one wrapper', {'wrapper': cname, 'place': pi}, len(set(outs)), len(set(mouts)))
+                if len(set(outs)) != 1:
+                    j = next(i for i, o in enumerate(outs) if o != outs[0])
+                    chk.violate('outputs of two lines that differ only in the text under a %s wrapper differ' % cname, {'cfg': cfgk.describe(), 'L': ls[0].decode(), 'L2': ls[j].decode(),
+                                'out_L': str(outs[0])[:400], 'out_L2': str(outs[j])[:400]}, tags=['interference', 'wrapper'])
+    chk.streams.append({'stream': 'texts of 14 shapes under $date / $oid / $binary.base64 in three places: one output', 'shapes': len(shapes)})
     # through the CLI, in the surroundings a user may run it in: an empty working directory, one that holds a (valid) key file under the default
     # name left by an earlier `--encrypt` run, and with --encryptionKeyFile naming an existing key WITHOUT --encrypt. In placeholder mode the
     # two logs that differ only in their secrets must come out byte for byte the same in every one of them.
